@@ -243,6 +243,13 @@ class Mini:
                 return base[idx]
             except Exception as ex:
                 raise Unsupported(f"subscript {t}: {ex}")
+        if isinstance(e, ast.Subscript) and isinstance(e.slice, ast.Slice):
+            base = self.ev(e.value, env)
+            if isinstance(base, (bytes, bytearray, str, list, tuple)):
+                lo, hi, st = (self.ev(x, env) if x is not None else None for x in (e.slice.lower, e.slice.upper, e.slice.step))
+                if all(x is None or (isinstance(x, int) and not isinstance(x, bool)) for x in (lo, hi, st)):
+                    return base[lo:hi:st]
+            raise Unsupported(f"slice {t}")
         if isinstance(e, ast.Call):
             d = dotted(e.func) or ""
             if d == "isinstance" and len(e.args) == 2:
@@ -301,7 +308,24 @@ class Mini:
                     obj = None
                 if isinstance(obj, _dt.timedelta):
                     return obj.total_seconds()
-            if isinstance(e.func, ast.Attribute) and e.func.attr in _PURE_TEXT_METHODS and not e.keywords:
+            if d in ("bytearray", "bytes", "str") and all(k.arg for k in e.keywords):
+                args = [self.ev(a, env) for a in e.args]
+                kw = {k.arg: self.ev(k.value, env) for k in e.keywords}
+                if all(isinstance(v, (bytes, bytearray, str, int, list, tuple)) and not isinstance(v, bool) for v in list(args) + list(kw.values())):
+                    try:
+                        return {"bytearray": bytearray, "bytes": bytes, "str": str}[d](*args, **kw)
+                    except (ValueError, UnicodeError, TypeError) as ex:
+                        raise _PyRaise(type(ex).__name__)
+                raise Unsupported(f"{t}: constructor argument outside the fragment")
+            if isinstance(e.func, ast.Attribute) and e.func.attr in ("extend", "append") and not e.keywords and len(e.args) == 1:
+                try:
+                    obj = self.ev(e.func.value, env)
+                except Unsupported:
+                    obj = None
+                if isinstance(obj, bytearray):
+                    getattr(obj, e.func.attr)(self.ev(e.args[0], env))  # the checker's own buffer object
+                    return None
+            if isinstance(e.func, ast.Attribute) and e.func.attr in _PURE_TEXT_METHODS and all(k.arg for k in e.keywords):
                 # pure methods of concrete bytes / str values (the checker's own values, nothing of the repository runs)
                 try:
                     obj = self.ev(e.func.value, env)
@@ -309,8 +333,9 @@ class Mini:
                     obj = None
                 if isinstance(obj, (bytes, bytearray, str)):
                     args = [self.ev(a, env) for a in e.args]
+                    kw = {k.arg: self.ev(k.value, env) for k in e.keywords}
                     try:
-                        r = getattr(obj, e.func.attr)(*args)
+                        r = getattr(obj, e.func.attr)(*args, **kw)
                     except (ValueError, UnicodeError) as ex:
                         raise _PyRaise(type(ex).__name__)
                     except Exception as ex:
@@ -432,6 +457,8 @@ class Mini:
                         obj = self.ev(c.func.value, env)
                     except Unsupported:
                         obj = None
+                    if isinstance(obj, bytearray) and c.func.attr in ("append", "extend", "clear", "insert"):
+                        getattr(obj, c.func.attr)(*[self.ev(a_, env) for a_ in c.args])  # the checker's own buffer object
                     if isinstance(obj, list):
                         args = [self.ev(a_, env) for a_ in c.args]
                         try:
@@ -553,9 +580,19 @@ class Mini:
     def _bind(self, t, v, env):
         if isinstance(t, ast.Name):
             env[t.id] = v
-        elif isinstance(t, (ast.Tuple, ast.List)) and isinstance(v, (tuple, list)) and len(v) == len(t.elts):
+        elif isinstance(t, (ast.Tuple, ast.List)) and isinstance(v, (tuple, list)) and len(v) == len(t.elts) and not any(isinstance(x, ast.Starred) for x in t.elts):
             for tt, vv in zip(t.elts, v):
                 self._bind(tt, vv, env)
+        elif isinstance(t, (ast.Tuple, ast.List)) and isinstance(v, (tuple, list)) and sum(isinstance(x, ast.Starred) for x in t.elts) == 1 and len(v) >= len(t.elts) - 1:
+            k = next(i for i, x in enumerate(t.elts) if isinstance(x, ast.Starred))
+            after = len(t.elts) - k - 1
+            for tt, vv in zip(t.elts[:k], v[:k]):
+                self._bind(tt, vv, env)
+            self._bind(t.elts[k].value, list(v[k: len(v) - after]), env)
+            for tt, vv in zip(t.elts[k + 1:], v[len(v) - after:] if after else []):
+                self._bind(tt, vv, env)
+        elif isinstance(t, (ast.Tuple, ast.List)) and isinstance(v, (tuple, list)):
+            raise _PyRaise("ValueError")  # wrong number of values to unpack
         else:
             raise Unsupported("assignment target")
 
